@@ -239,3 +239,127 @@ Proof.
   destruct (N.eqb_spec f 0); simpl; auto.
   rewrite existsb_maxsnd by lia. auto.
 Qed.
+
+(* ---------- admission = feasibility ---------- *)
+Lemma group_like_max gs c :
+  gs_mirror gs c -> gs_wf gs -> cs_nodup c ->
+  cs_units_sum c = sumN (map fst (map (fun g => (len (g_idx g), fmax (g_fr g))) gs))
+  /\ cs_max_fraction c = maxsnd (map (fun g => (len (g_idx g), fmax (g_fr g))) gs)
+  /\ maxsnd (map (fun g => (len (g_idx g), fmax (g_fr g))) gs) < FPU.
+Proof.
+  induction 1 as [|g cg gs c [Hu Hf] _ IH]; intros Hwf Hn; simpl.
+  - split; [reflexivity|]. split; [reflexivity|]. apply FPU_pos.
+  - inversion Hwf as [|? ? (Hnd & Hndk & Hsf & Hlt) Hwf']; subst. inversion Hn as [|? ? Hnk Hn']; subst.
+    destruct (IH Hwf' Hn') as (A & B & C). cbn [map]. rewrite sumN_cons. simpl fst. simpl snd.
+    assert (Hfm : fmax (c_fr cg) = fmax (g_fr g)) by (apply fmax_ext; auto).
+    assert (Hb : fmax (g_fr g) < FPU) by (apply fmax_bound; auto; apply FPU_pos).
+    unfold cs_units_sum, cs_max_fraction in *. simpl. rewrite A, B, Hu, Hfm. repeat split; auto. lia.
+Qed.
+
+Lemma adm_arith U F a :
+  F < FPU ->
+  (a <=? mk_amount U F) =
+  (let '(u, f) := split a in (u <=? U) && ((f =? 0) || (u + 1 <=? U) || (f <=? F))).
+Proof.
+  intros HF. unfold split, mk_amount.
+  assert (Hm : a mod FPU < FPU) by (apply N.mod_lt; discriminate).
+  destruct (N.leb_spec a (U * FPU + F)); destruct (N.leb_spec (a / FPU) U); destruct (N.eqb_spec (a mod FPU) 0);
+    destruct (N.leb_spec (a / FPU + 1) U); destruct (N.leb_spec (a mod FPU) F); simpl; auto;
+    exfalso; unfold FPU, FRACTIONS_PER_UNIT in *; lia.
+Qed.
+
+Definition fits_amount (pl : pool) (a : N) : bool :=
+  match pl with
+  | PEmpty => a =? 0
+  | PSum _ free => a <=? free
+  | _ => let '(u, f) := split a in sufficient (pool_per_group pl) u f (full_mask (pool_per_group pl))
+  end.
+
+Lemma entry_adm p0 pl c H taken a :
+  PoolInv p0 pl c H taken -> cs_nodup c ->
+  exists m, amount_max_alloc c = Ok m /\ (a <=? m) = fits_amount pl a.
+Proof.
+  intros (K & F & C) Hn. destruct pl as [|fl g|fl gs|fl free].
+  - destruct C as (_ & Hm & _). inversion Hm; subst. exists 0. split; [reflexivity|]. simpl.
+    destruct (N.leb_spec a 0), (N.eqb_spec a 0); auto; lia.
+  - destruct C as (_ & Hm & Hw & _). simpl pool_groups in *.
+    destruct (group_like_max _ _ Hm Hw Hn) as (A & B & Cb).
+    unfold amount_max_alloc. rewrite B. destruct (N.ltb_spec (maxsnd (map (fun g0 => (len (g_idx g0), fmax (g_fr g0))) [g])) FPU); [|lia].
+    eexists; split; [reflexivity|]. rewrite A. rewrite adm_arith by auto. unfold fits_amount, pool_per_group. simpl pool_groups.
+    destruct (split a) as [u f]. rewrite sufficient_full. auto.
+  - destruct C as (_ & Hm & Hw & _). simpl pool_groups in *.
+    destruct (group_like_max _ _ Hm Hw Hn) as (A & B & Cb).
+    unfold amount_max_alloc. rewrite B. destruct (N.ltb_spec (maxsnd (map (fun g0 => (len (g_idx g0), fmax (g_fr g0))) gs)) FPU); [|lia].
+    eexists; split; [reflexivity|]. rewrite A. rewrite adm_arith by auto. unfold fits_amount, pool_per_group. simpl pool_groups.
+    destruct (split a) as [u f]. rewrite sufficient_full. auto.
+  - destruct C as (_ & (cg & -> & Hs & Hl & Ho) & _). pose proof (Forall_inv Hn) as Hnk. cbv beta in Hnk.
+    unfold amount_max_alloc, cs_max_fraction, cs_units_sum. simpl.
+    rewrite (fmax_single _ Hnk Ho). rewrite N.max_0_r.
+    destruct (N.ltb_spec (fget0 (c_fr cg) 0) FPU); [|lia].
+    eexists; split; [reflexivity|]. unfold mk_amount. rewrite N.add_0_r, Hs. auto.
+Qed.
+
+Definition plain_entry (e : entry) : bool :=
+  match e_req e with Req Compact _ | Req Tight _ | Req Scatter _ => true | _ => false end.
+
+Lemma entry_fits_plain pools e pl :
+  plain_entry e = true -> nth_error pools (nat_of (e_res e)) = Some pl ->
+  entry_fits pools e = fits_amount pl (match e_req e with Req _ a => a | ReqAll => 0 end).
+Proof.
+  intros Hp Hn. unfold entry_fits, plain_entry in *. rewrite Hn.
+  destruct (e_req e) as [pol a|]; [|discriminate]. destruct pl; auto.
+Qed.
+
+Lemma hr_entries_fits pools0 pools free Hf Tf entries : forall coupling,
+  PoolsInv pools0 pools free Hf Tf -> free_nodup free -> forallb plain_entry entries = true ->
+  exists coupling', hr_entries pools free entries coupling = Ok (forallb (entry_fits pools) entries, coupling')
+                    /\ (forall e, In e coupling' -> In e coupling \/ In e entries).
+Proof.
+  induction entries as [|e rest IH]; intros coupling HP Hn Hpl; simpl.
+  - exists coupling. split; auto.
+  - simpl in Hpl. apply andb_true_iff in Hpl. destruct Hpl as [Hpe Hpr].
+    destruct HP as (L1 & L2 & HP').
+    destruct (N.leb_spec (len pools) (e_res e)) as [Hout|Hin].
+    + assert (nth_error pools (nat_of (e_res e)) = None) by (apply nth_error_None; unfold len, nat_of in *; lia).
+      unfold entry_fits at 1. rewrite H. simpl. exists coupling. split; auto.
+    + destruct (get_at_lt pools (e_res e) Hin) as [pl Hpl]. rewrite Hpl. cbn [bind].
+      destruct (get_at_lt free (e_res e)) as [c Hc]; [unfold len in *; lia|]. rewrite Hc. cbn [bind].
+      pose proof Hpl as Hpl'. apply get_at_ok in Hpl'. destruct Hpl' as [_ Hnp].
+      pose proof Hc as Hc'. apply get_at_ok in Hc'. destruct Hc' as [_ Hnc].
+      assert (Hr0 : e_res e < len pools0) by (unfold len in *; lia).
+      destruct (nth_error pools0 (nat_of (e_res e))) as [p0|] eqn:E0; [|apply nth_error_None in E0; unfold len, nat_of in *; lia].
+      pose proof (HP' _ _ _ _ Hr0 E0 Hnp Hnc) as HI.
+      assert (Hcn : cs_nodup c) by (eapply Forall_nth; eauto).
+      rewrite (entry_fits_plain pools e pl Hpe Hnp).
+      unfold plain_entry in Hpe. destruct (e_req e) as [pol a|] eqn:Er; [|discriminate].
+      destruct (entry_adm _ _ _ _ _ a HI Hcn) as (m & Hm & Hle). rewrite Hm. cbn [bind]. rewrite Hle.
+      destruct (fits_amount pl a).
+      * destruct (IH (if is_groups pl && is_relevant_for_coupling (Req pol a) then coupling ++ [e] else coupling)) as (cp & A & B); auto.
+        { split; auto. }
+        exists cp. split; auto. intros x Hx. destruct (B x Hx) as [Hy|Hy]; auto.
+        destruct (is_groups pl && is_relevant_for_coupling (Req pol a)); auto.
+        apply in_app_or in Hy. destruct Hy as [Hy|[Hy|[]]]; auto; try (subst; right; left; auto).
+      * destruct (is_groups pl && is_relevant_for_coupling (Req pol a)); cbn [bind]; eexists; (split; [reflexivity|]); intros x Hx; auto.
+        apply in_app_or in Hx. destruct Hx as [Hx|[Hx|[]]]; auto; try (subst; right; left; auto).
+Qed.
+
+(** C16_admission_iff_feasible (non-strict policies, amounts): in every reachable state the admission test
+    does not panic and is true exactly when the free resources of the POOLS contain enough for every entry
+    (enough whole indices, the fractional remainder from one index; enough of a sum resource). *)
+Theorem admission_iff_feasible_thm d s0 ops s rq w :
+  init d = Ok s0 -> Forall valid_op ops -> run s0 ops = Ok s ->
+  forallb plain_entry rq = true ->
+  has_resources (s_alloc s) rq w = Ok (request_fits (a_pools (s_alloc s)) rq, a_yard (s_alloc s)).
+Proof.
+  intros Hi Hv Hr Hpl.
+  assert (HF : FullInv (a_pools (s_alloc s0)) s) by (eapply run_full; [apply (init_full d); auto | eauto | eauto]).
+  destruct HF as [HI _]. pose proof (reachable_nodup _ _ _ _ Hi Hr) as Hn.
+  destruct (hr_entries_fits _ _ _ _ _ rq [] HI Hn Hpl) as (cp & A & B).
+  unfold has_resources. rewrite A. cbn [bind]. fold (request_fits (a_pools (s_alloc s)) rq).
+  destruct (request_fits (a_pools (s_alloc s)) rq); simpl; auto.
+  assert (Hnf : forallb (fun e => negb (is_forced (e_req e))) cp = true).
+  { apply forallb_forall. intros e He. destruct (B e He) as [[]|Hin].
+    rewrite forallb_forall in Hpl. specialize (Hpl e Hin). unfold plain_entry in Hpl.
+    destruct (e_req e) as [[] ?|]; simpl; auto; discriminate. }
+  rewrite Hnf. auto.
+Qed.
